@@ -646,6 +646,25 @@ def exc_kind_names(e):
     return [c.__name__ for c in type(e).__mro__]
 
 
+def real_result(interp, contract, inst, nm, pb):
+    """The real function on one concrete instantiation of the instance (no spec); raises what it raises."""
+    ctx = PathCtx()
+    ctx.concrete = True
+    ctx.inst_label = inst.label
+    V.CONCRETE_MODE = True
+    try:
+        args, kwargs = inst.build(interp, ctx, nm)
+        rargs, rkwargs = to_real(tuple(args), pb), to_real(dict(kwargs), pb)
+    finally:
+        V.CONCRETE_MODE = False
+    if getattr(contract, "real_call", None) is not None:
+        return contract.real_call(pb, rargs, rkwargs)
+    fn, owner = resolve_real(contract.qualname, pb)
+    if isinstance(fn, property):
+        return fn.fget(*rargs)
+    return fn(*rargs, **rkwargs)
+
+
 def differential(interp, contract, inst, nm, pb, tol=None, real_call=None):
     """Run the spec concretely and the real function natively on the same concrete inputs.
     Returns dict(status='ok'|'mismatch'|'skip', mismatches=[...], inputs=..., observed=..., expected=...)."""
